@@ -87,7 +87,7 @@ func init() {
 		Rule: "every exported command method (28) is called over a live in-memory connection with every argument position (incl. variadic tails of 0..3) set to each hostile string " +
 			"(CR/LF/CRLF at start, middle, end, CRLF+second command, NUL, \\x01, empty, 5000 bytes, leading ':'/space, format verbs) with the other positions benign, for every SplitLen in {-1,0,5,13,450}, " +
 			"plus PRNG combinations with several hostile positions; the bytes between consecutive Raw(\"VSYNC n\") separators are attributed to call n and must be (CR/LF-free line CRLF)* with each line " +
-			"starting with the method's verb followed by space or end (Raw: equal to the argument up to its first CR/LF). A concurrent mode lets 2..8 goroutines call non-splitting methods (incl. 6000-byte arguments) while the server sends PINGs and reads in bursts: the wire must hold exactly the expected whole lines. Ending mode: 2..32 calls queued behind a writer blocked in a stalled socket, the connection then ends (Close, EOF, read error) and only afterwards does the server read on: every whole line that reaches it is a whole line of a call that was made, at most the final one cut short. Pre-connect rounds: command methods with CR/LF called on a never-connected client, then Connect. Every 40th PRNG call is repeated with the same arguments and must write the same bytes again. distinct_nontrivial = distinct (method, position, hostile-class, SplitLen) cells whose arguments contained CR or LF or another hostile byte.",
+			"starting with the method's verb followed by space or end (Raw: equal to the argument up to its first CR/LF). A concurrent mode lets 2..8 goroutines call non-splitting methods (incl. 6000-byte arguments) while the server sends PINGs and reads in bursts: the wire must hold exactly the expected whole lines. Ending mode: 2..32 calls queued behind a writer blocked in a stalled socket, the connection then ends (Close, EOF, read error) and only afterwards does the server read on: every whole line that reaches it is a whole line of a call that was made, at most the final one cut short. Pre-connect rounds: command methods with CR/LF called on a never-connected client, then Connect. Every 40th PRNG call is repeated with the same arguments and must write the same bytes again. Hostile strings include runs of UTF-8 continuation bytes, latin-1 padding and other bytes that are not UTF-8. distinct_nontrivial = distinct (method, position, hostile-class, SplitLen) cells whose arguments contained CR or LF or another hostile byte.",
 		Assumptions: []string{"calls are issued from one goroutine so FIFO separators attribute bytes to calls", "flood control off (Flood=true) so that 10^5 lines can be written"},
 		Plan: func(tier string, seed int64) []Batch {
 			bs := []Batch{{Name: "enum", Args: map[string]string{"mode": "enum"}, Race: false, Procs: 2}}
